@@ -237,18 +237,23 @@ Definition apply_upd (u : updk) (pop : list dna) (step : nat) : list dna :=
   end.
 
 (* ---------------------------------------------------------------------------------------------- *)
-(* Evolution(reproduction, population_init=(gi, size) | gi, population_update) *)
+(* Evolution(reproduction, population_init=(gi, size) | gi, population_update).
+   G is the part of global_state other than num_generations (e.g. NSGA2's elites and cursor); reproduction and
+   population_update are arbitrary functions that may read and write it. *)
 Section Evolution.
   Variable gi : gen.                                   (* the population initialiser *)
   Variable size : option nat.                          (* initial population size, if given *)
-  Variable upd : updk.
-  Variable repro : list dna -> Z -> nat -> list Z.     (* reproduction(population, num_generations, step): children *)
+  Variable G : Type.
+  Variable g0 : G.
+  Variable repro : list dna -> G -> Z -> nat -> list Z * G.   (* reproduction(population, global state, num_generations, step) *)
+  Variable updf : list dna -> G -> nat -> list dna * G.       (* population_update(population + [dna], global state, step) *)
 
   Record ev_st := mkEv {
     ev_np : nat; ev_nf : nat;
     ev_in : st gi;
     ev_initialized : bool;
     ev_ngen : Z;                                       (* global_state.num_generations *)
+    ev_g : G;
     ev_pop : list dna;
     ev_pending : list dna
   }.
@@ -259,20 +264,18 @@ Section Evolution.
     | v :: r => set_ids (bare v) pid gid false :: number_children r (pid + 1)%Z gid
     end.
 
-  (* _evolve: returns the children (empty = ValueError) *)
-  Definition ev_evolve (s : ev_st) : list dna :=
-    number_children (repro (ev_pop s) (ev_ngen s) (ev_np s)) (Z.of_nat (ev_np s) + 1)%Z (ev_ngen s + 1)%Z.
-
   Definition ev_pop_front (s : ev_st) : outcome * ev_st :=
     match ev_pending s with
-    | d :: r => (Ok d, mkEv (S (ev_np s)) (ev_nf s) (ev_in s) (ev_initialized s) (ev_ngen s) (ev_pop s) r)
+    | d :: r => (Ok d, mkEv (S (ev_np s)) (ev_nf s) (ev_in s) (ev_initialized s) (ev_ngen s) (ev_g s) (ev_pop s) r)
     | [] => (Fail 5, s)
     end.
 
+  (* _evolve, then popleft; no children = ValueError *)
   Definition ev_do_evolve (s : ev_st) : outcome * ev_st :=
-    match ev_evolve s with
-    | [] => (Fail 1, s)
-    | cs => ev_pop_front (mkEv (ev_np s) (ev_nf s) (ev_in s) (ev_initialized s) (ev_ngen s + 1)%Z (ev_pop s) (ev_pending s ++ cs))
+    let (vals, g') := repro (ev_pop s) (ev_g s) (ev_ngen s) (ev_np s) in
+    match number_children vals (Z.of_nat (ev_np s) + 1)%Z (ev_ngen s + 1)%Z with
+    | [] => (Fail 1, mkEv (ev_np s) (ev_nf s) (ev_in s) (ev_initialized s) (ev_ngen s) g' (ev_pop s) (ev_pending s))
+    | cs => ev_pop_front (mkEv (ev_np s) (ev_nf s) (ev_in s) (ev_initialized s) (ev_ngen s + 1)%Z g' (ev_pop s) (ev_pending s ++ cs))
     end.
 
   Definition ev_propose (s : ev_st) : outcome * ev_st :=
@@ -284,10 +287,10 @@ Section Evolution.
           match propose gi (ev_in s) with
           | (Ok d, i') =>
               let d' := set_ids d (Z.of_nat (ev_np s) + 1)%Z (ev_ngen s + 1)%Z true in
-              ev_pop_front (mkEv (ev_np s) (ev_nf s) i' false (ev_ngen s) (ev_pop s) [d'])
+              ev_pop_front (mkEv (ev_np s) (ev_nf s) i' false (ev_ngen s) (ev_g s) (ev_pop s) [d'])
           | (Stop, i') =>
-              ev_do_evolve (mkEv (ev_np s) (ev_nf s) i' true 1%Z (ev_pop s) [])
-          | (Fail c, i') => (Fail c, mkEv (ev_np s) (ev_nf s) i' false (ev_ngen s) (ev_pop s) [])
+              ev_do_evolve (mkEv (ev_np s) (ev_nf s) i' true 1%Z (ev_g s) (ev_pop s) [])
+          | (Fail c, i') => (Fail c, mkEv (ev_np s) (ev_nf s) i' false (ev_ngen s) (ev_g s) (ev_pop s) [])
           end
     end.
 
@@ -301,16 +304,26 @@ Section Evolution.
     let d' := set_fed d (Z.of_nat (ev_nf s) + 1)%Z r in
     let i' := if is_initial d' then snd (feedback gi (ev_in s) d' r) else ev_in s in
     let flip := negb (ev_initialized s) && size_reached (ev_nf s) in
+    let (pop', g') := updf (ev_pop s ++ [d']) (ev_g s) (ev_nf s) in
     (d', mkEv (ev_np s) (S (ev_nf s)) i'
               (if flip then true else ev_initialized s)
               (if flip then 1%Z else ev_ngen s)
-              (apply_upd upd (ev_pop s ++ [d']) (ev_nf s))
-              (ev_pending s)).
+              g' pop' (ev_pending s)).
+
+  (* the branch of Evolution.recover for a DNA that already carries a feedback sequence number *)
+  Definition ev_readd (s : ev_st) (d : dna) : ev_st :=
+    let (pop', g') := updf (ev_pop s ++ [d]) (ev_g s) (ev_nf s) in
+    mkEv (ev_np s) (S (ev_nf s)) (ev_in s) (ev_initialized s) (ev_ngen s) g' pop' (ev_pending s).
+
+  Definition ev_bump_np (s : ev_st) : ev_st :=
+    mkEv (S (ev_np s)) (ev_nf s) (ev_in s) (ev_initialized s) (ev_ngen s) (ev_g s) (ev_pop s) (ev_pending s).
+  Definition ev_raise_ngen (s : ev_st) (g : Z) : ev_st :=
+    mkEv (ev_np s) (ev_nf s) (ev_in s) (ev_initialized s) (if (ev_ngen s <? g)%Z then g else ev_ngen s) (ev_g s) (ev_pop s) (ev_pending s).
 
   (* Evolution.recover: one step of the loop over the history; ip = init_population *)
   Definition ev_replay (acc : ev_st * list hentry) (e : hentry) : ev_st * list hentry :=
-    let (s0, ip) := acc in
-    let s := mkEv (S (ev_np s0)) (ev_nf s0) (ev_in s0) (ev_initialized s0) (ev_ngen s0) (ev_pop s0) (ev_pending s0) in
+    let s := ev_bump_np (fst acc) in
+    let ip := snd acc in
     let d := fst e in
     let '(s1, ip1) :=
       match snd e with
@@ -318,24 +331,21 @@ Section Evolution.
           let '(d1, s') :=
             match dfsn d with
             | None => ev_feedback s d r
-            | Some _ => (d, mkEv (ev_np s) (S (ev_nf s)) (ev_in s) (ev_initialized s) (ev_ngen s)
-                                 (apply_upd upd (ev_pop s ++ [d]) (ev_nf s)) (ev_pending s))
+            | Some _ => (d, ev_readd s d)
             end in
           (s', if is_initial d1 then ip ++ [(d1, Some r)] else ip)
       | None => (s, ip)
       end in
-    let g := gen_id d in
-    (mkEv (ev_np s1) (ev_nf s1) (ev_in s1) (ev_initialized s1)
-          (if (ev_ngen s1 <? g)%Z then g else ev_ngen s1) (ev_pop s1) (ev_pending s1), ip1).
+    (ev_raise_ngen s1 (gen_id d), ip1).
 
   Definition ev_recover (s : ev_st) (h : list hentry) : ev_st :=
     let (s1, ip) := fold_left ev_replay h (s, []) in
     let reached := match size with Some n => n <=? length ip | None => false end in
     mkEv (ev_np s1) (ev_nf s1) (recover gi (ev_in s1) ip)
-         (if reached then true else ev_initialized s1) (ev_ngen s1) (ev_pop s1) (ev_pending s1).
+         (if reached then true else ev_initialized s1) (ev_ngen s1) (ev_g s1) (ev_pop s1) (ev_pending s1).
 
   Definition Evolution : gen :=
-    mkGen ev_st (mkEv 0 0 (init gi) false 0%Z [] []) ev_propose ev_feedback ev_recover true
+    mkGen ev_st (mkEv 0 0 (init gi) false 0%Z g0 [] []) ev_propose ev_feedback ev_recover true
           (fun s => Obs (ev_np s) (ev_nf s) (ev_pop s) [] [if ev_initialized s then 1%Z else 0%Z; ev_ngen s] []).
 End Evolution.
 
@@ -352,7 +362,10 @@ Fixpoint denote (m : Z) (a : alg) : gen :=
   | ASweep => Sweeping m
   | ARand t => RandomSeeded (fun k => nth k t (-1)%Z)
   | ADedup a' hm auto maxdup maxatt => Deduping (denote m a') m hm auto maxdup maxatt
-  | AEvo i size u t => Evolution (denote m i) size u (fun _ ngen _ => nth (Z.to_nat (ngen - 1)) t [])
+  | AEvo i size u t =>
+      Evolution (denote m i) size unit tt
+                (fun _ _ ngen _ => (nth (Z.to_nat (ngen - 1)) t [], tt))
+                (fun pop _ step => (apply_upd u pop step, tt))
   end.
 
 (* proposals are a function of history and seed *)
